@@ -75,13 +75,25 @@ var c18GoroutineHead = regexp.MustCompile(`^goroutine (\d+) \[([^\],]*)`)
 // c18InterpreterBlocked reports whether every goroutine with a frame of the
 // interpreter is blocked, and a signature of where.
 func c18InterpreterBlocked() (sig string, blocked bool, dump string) {
+	return blockedGoroutines("src.elv.sh/pkg/eval")
+}
+
+// blockedGoroutines looks at every goroutine that has a frame in one of the
+// given packages: blocked = all of them are waiting (channel operation, select,
+// sync primitive, idle network/pipe read) and none is running, runnable, in a
+// system call or sleeping on a timer; sig tells where each one waits.
+func blockedGoroutines(pkgs ...string) (sig string, blocked bool, dump string) {
 	buf := make([]byte, 8<<20)
 	buf = buf[:runtime.Stack(buf, true)]
 	blocked = true
 	var parts []string
 	var shown []string
 	for _, g := range strings.Split(string(buf), "\n\n") {
-		if !strings.Contains(g, "src.elv.sh/pkg/eval") {
+		in := false
+		for _, p := range pkgs {
+			in = in || strings.Contains(g, p)
+		}
+		if !in {
 			continue
 		}
 		m := c18GoroutineHead.FindStringSubmatch(g)
